@@ -153,6 +153,36 @@ INVALID = [
     ('f8-lead', b'\xf8\x88\x80\x80\x80', b'\xf8\x88\x80\x80\x80'), ('stray-continuation', b'\x80', b'\x80'), ('truncated-2', b'\xc3', b'\xc3'), ('truncated-3', b'\xe2\x82', b'\xe2\x82'),
     ('ff-byte', b'\xff', b'\xff'), ('fe-byte', b'\xfe', b'\xfe'), ('lead-then-ascii', b'\xc3A', b'\xc3A'),
 ]
+
+
+def _systematic_invalid():
+    """every second byte after the lead bytes whose valid range is narrower than 80..BF, with minimal and maximal tails,
+    every byte that can never start a sequence, and a non-continuation byte at every position of every length"""
+    out = []
+    for lead, n in ((0xe0, 3), (0xed, 3), (0xf0, 4), (0xf4, 4)):
+        for b2 in range(0x80, 0xc0):
+            for fill in (0x80, 0xbf):
+                bs = bytes([lead, b2] + [fill] * (n - 2))
+                try:
+                    bs.decode('utf-8')
+                except UnicodeDecodeError:
+                    out.append(('sys-%s' % bs.hex(), bs, bs))
+    for lead in list(range(0x80, 0xc2)) + list(range(0xf5, 0x100)):
+        n = 2 if lead < 0xe0 else 3 if lead < 0xf0 else 4 if lead < 0xf8 else 5 if lead < 0xfc else 6
+        bs = bytes([lead] + [0x80] * (n - 1)) if lead >= 0xc0 else bytes([lead])
+        out.append(('lead-%s' % bs.hex(), bs, bs))
+    for good in (b'\xc3\xa9', b'\xe2\x82\xac', b'\xf0\x9f\x98\x80'):
+        for pos in range(1, len(good)):
+            for bad in (0x28, 0x7f, 0xc0, 0xe2, 0xff):
+                bs = good[:pos] + bytes([bad]) + good[pos + 1:]
+                try:
+                    bs.decode('utf-8')
+                except UnicodeDecodeError:
+                    out.append(('cont-%s' % bs.hex(), bs, bs))
+            out.append(('trunc-%s' % good[:pos].hex(), good[:pos], good[:pos]))
+    return out
+
+
 BAD_ESCAPE = [
     ('char-hex-range', 'char x[] = "\\x100";'), ('char-octal-range-const', "int x = '\\400';"), ('u8-hex-range', 'unsigned char x[] = u8"\\x100";'), ('u16-hex-range', 'unsigned short x[] = u"\\x10000";'),
     ('u32-hex-range', 'unsigned x[] = U"\\x100000000";'), ('charconst-hex-range', "int x = '\\x100';"), ('u16-const-range', "int x = u'\\x10000';"), ('empty-charconst', "int x = '';"),
@@ -321,6 +351,14 @@ def run(tier):
             for pfx, ty in (('u', 'unsigned short'), ('U', 'unsigned'), ('L', "__typeof__(L'a')"), ('u8', 'unsigned char')):
                 negs.append((exe, t, '%s:%s' % (pfx, name), ty.encode() + b' x[] = ' + pfx.encode() + b'"' + bs + b'";\n', None if pfx != 'u8' else passthrough + b'\0'))
             negs.append((exe, t, 'Lconst:' + name, b"int x = L'" + bs + b"';\n", None))
+        for name, bs, passthrough in _systematic_invalid():
+            if tier == 'quick' and t != common.TARGETS[0] and not name.startswith('sys-'):
+                continue
+            negs.append((exe, t, 'U:' + name, b'unsigned x[] = U"' + bs + b'";\n', None))
+            negs.append((exe, t, 'narrow:' + name, b'char x[] = "' + bs + b'";\n', passthrough + b'\0'))
+            if tier != 'quick':
+                negs.append((exe, t, 'u:' + name, b'unsigned short x[] = u"a' + bs + b'b";\n', None))
+                negs.append((exe, t, 'Uconst:' + name, b"unsigned x = U'" + bs + b"';\n", None))
         for name, src in BAD_ESCAPE:
             negs.append((exe, t, 'escape:' + name, src.encode('utf-8') + b'\n', None))
     for (exe_, t, nm, src, pt), (name, verdict, det) in zip(negs, common.pmap(_neg, negs, chunksize=8)):
